@@ -115,6 +115,41 @@ def bins : List Int → Option Int
 /-- `mask` getter: `voxel_map > -1` -/
 def maskOf (vm : List Int) : List Bool := vm.map fun v => decide (v > -1)
 
+/-! ### map setters as a state machine (emitters.pyx:313-337, after fix C10-2) -/
+
+/-- `_grid_shape`, `_voxel_map`, `voxel_map_mv` (what `integrate` reads), `_bins` -/
+structure EmitterState where
+  shape : Nat × Nat × Nat
+  vmap : List Int
+  mv : List Int
+  nbins : Option Int
+
+def ncells (sh : Nat × Nat × Nat) : Nat := sh.1 * sh.2.1 * sh.2.2
+
+inductive MapOp where
+  /-- `obj.voxel_map = value` with `value.shape = shape`, flattened in C order (any dtype / memory layout) -/
+  | voxelMap (shape : Nat × Nat × Nat) (data : List Int)
+  /-- `obj.mask = value` -/
+  | mask (shape : Nat × Nat × Nat) (data : List Bool)
+
+/-- the two setters: a shape mismatch raises before anything is assigned; otherwise a private C-ordered copy becomes
+the map, the memoryview and the source of `bins` together -/
+def EmitterState.apply (st : EmitterState) : MapOp → EmitterState × Bool
+  | .voxelMap sh data =>
+      if sh ≠ st.shape ∨ data.length ≠ ncells sh then (st, false)
+      else ({ st with vmap := data, mv := data, nbins := bins data }, true)
+  | .mask sh data =>
+      if sh ≠ st.shape ∨ data.length ≠ ncells sh then (st, false)
+      else ({ st with vmap := mapFromMask data, mv := mapFromMask data, nbins := bins (mapFromMask data) }, true)
+
+def EmitterState.run (st : EmitterState) (ops : List MapOp) : EmitterState :=
+  ops.foldl (fun s o => (s.apply o).1) st
+
+/-- constructor without map arguments: `mask = None` = all cells -/
+def EmitterState.new (sh : Nat × Nat × Nat) : EmitterState :=
+  let m := mapFromMask (List.replicate (ncells sh) true)
+  { shape := sh, vmap := m, mv := m, nbins := bins m }
+
 /-! ### sampling and index arithmetic -/
 section scalar
 variable {α : Type} [Add α] [Sub α] [Mul α] [Div α] [Neg α] [Zero α] [One α] [OfScientific α] [NatCast α]
@@ -198,6 +233,98 @@ def integrateCyl (trunc : α → Int) (sqrt : α → α) (atan2 : α → α → 
     (minSamples : Int) (spec : Int → α) (s : Seg α) : Option (Int → α) :=
   integrateWith (cylCell trunc sqrt atan2 fmod pi nphi dr dphi dz rmin period) trunc sqrt look nbins extra step
     minSamples spec s
+
+/-! ### setters as a state machine (emitters.pyx:52-70, 313-337) -/
+
+/-- `RayTransferIntegrator`: `_step`, `_min_samples` -/
+structure IntegState (α : Type) where
+  step : α
+  minSamples : Int
+
+/-- a write either succeeds (`ok`) or raises (`raised`); both carry the state the object is left in -/
+inductive Outcome (σ : Type) where
+  | ok (s : σ)
+  | raised (s : σ)
+
+def Outcome.state {σ : Type} : Outcome σ → σ
+  | .ok s => s
+  | .raised s => s
+
+def Outcome.isOk {σ : Type} : Outcome σ → Bool
+  | .ok _ => true
+  | .raised _ => false
+
+/-- `step` setter: `if value <= 0: raise ValueError; self._step = value` -/
+def IntegState.setStep (st : IntegState α) (value : α) : Outcome (IntegState α) :=
+  if value ≤ 0 then .raised st else .ok { st with step := value }
+
+/-- `min_samples` setter: `if value < 2: raise ValueError; self._min_samples = value` -/
+def IntegState.setMinSamples (st : IntegState α) (value : Int) : Outcome (IntegState α) :=
+  if value < 2 then .raised st else .ok { st with minSamples := value }
+
+inductive IntegOp (α : Type) where
+  | step (v : α)
+  | minSamples (v : Int)
+
+def IntegState.apply (st : IntegState α) : IntegOp α → Outcome (IntegState α)
+  | .step v => st.setStep v
+  | .minSamples v => st.setMinSamples v
+
+/-- a history of writes, each inside try/except -/
+def IntegState.run (st : IntegState α) (ops : List (IntegOp α)) : IntegState α :=
+  ops.foldl (fun s o => (s.apply o).state) st
+
+/-! ### pipelines (pipelines.py): what one `observe()` does to a pipeline object -/
+
+/-- `RayTransferPixelProcessorBase` + `add_sample`: `_matrix += spectrum.samples [* sensitivity]`, packed as `(matrix, 0)` -/
+def pixelProcess (power : Bool) (bins : Nat) (samples : List (List α × α)) : List α :=
+  samples.foldl (fun m s => List.zipWith (· + ·) m (if power then s.1.map (· * s.2) else s.1)) (List.replicate bins 0)
+
+/-- state of a `RayTransferPipeline0D`: `_samples`, `_bins`, `_matrix` -/
+structure Pipe0D (α : Type) where
+  samples : Nat
+  bins : Nat
+  matrix : List α
+
+/-- `__init__`: `_matrix = None`, `_samples = 0`, `_bins = 0` -/
+def Pipe0D.new : Pipe0D α := { samples := 0, bins := 0, matrix := [] }
+
+/-- `initialise`: `_samples = 0; _bins = spectral_bins; _matrix = zeros(spectral_bins)` -/
+def Pipe0D.initialise (_p : Pipe0D α) (bins : Nat) : Pipe0D α :=
+  { samples := 0, bins := bins, matrix := List.replicate bins 0 }
+
+/-- `update`: `_samples += pixel_samples; _matrix += packed_result[0]` -/
+def Pipe0D.update (p : Pipe0D α) (packed : List α) (pixelSamples : Nat) : Pipe0D α :=
+  { p with samples := p.samples + pixelSamples, matrix := List.zipWith (· + ·) p.matrix packed }
+
+/-- `finalise`: `_matrix /= _samples` -/
+def Pipe0D.finalise (p : Pipe0D α) : Pipe0D α :=
+  { p with matrix := p.matrix.map (· / (p.samples : α)) }
+
+/-- one `observe()` of the 0D observer that owns the pipeline: initialise, one update per render task, finalise -/
+def Pipe0D.observe (p : Pipe0D α) (bins : Nat) (results : List (List α × Nat)) : Pipe0D α :=
+  (results.foldl (fun q r => q.update r.1 r.2) (p.initialise bins)).finalise
+
+/-- state of a `RayTransferPipeline1D` (2D is the same with a pixel pair): `_pixels`, `_samples`, `_bins`, `_matrix` -/
+structure Pipe1D (α : Type) where
+  pixels : Nat
+  samples : Nat
+  bins : Nat
+  matrix : List (List α)
+
+def Pipe1D.new : Pipe1D α := { pixels := 0, samples := 0, bins := 0, matrix := [] }
+
+/-- `initialise`: `_pixels = pixels; _samples = pixel_samples; _bins = spectral_bins; _matrix = zeros((pixels, bins))` -/
+def Pipe1D.initialise (_p : Pipe1D α) (pixels pixelSamples bins : Nat) : Pipe1D α :=
+  { pixels := pixels, samples := pixelSamples, bins := bins, matrix := List.replicate pixels (List.replicate bins 0) }
+
+/-- `update`: `_matrix[pixel] = packed_result[0] / _samples` -/
+def Pipe1D.update (p : Pipe1D α) (pixel : Nat) (packed : List α) : Pipe1D α :=
+  { p with matrix := p.matrix.set pixel (packed.map (· / (p.samples : α))) }
+
+/-- one `observe()`: initialise, one update per pixel task (`finalise` is `pass`) -/
+def Pipe1D.observe (p : Pipe1D α) (pixels pixelSamples bins : Nat) (results : List (Nat × List α)) : Pipe1D α :=
+  results.foldl (fun q r => q.update r.1 r.2) (p.initialise pixels pixelSamples bins)
 
 /-! ### bounding primitives (raytransfer.py) -/
 
